@@ -17,6 +17,8 @@ class Unsupported(Exception):
 
 
 OPS_SEEN = set()
+CONCRETE_OPS = {'aten.any.default', 'aten.all.default', 'aten.eq.Tensor', 'aten.eq.Scalar', 'aten.ne.Tensor', 'aten.ne.Scalar',
+                'aten.allclose.default', 'aten.equal.default', 'aten.is_nonzero.default'}
 HANDLERS = {}
 
 
@@ -93,6 +95,11 @@ class SymT(torch.Tensor):
             new = ip(*tree_map(sy_, args), **tree_map(sy_, kwargs))
             target.sym = np.broadcast_to(_arr(new), target.sym.shape).copy()
             return target
+        if name in CONCRETE_OPS:
+            # data-dependent predicate (any / all / ==): the concrete outcome of this run is used and the event is logged,
+            # so a check can tell that control depended on tensor contents at this point (concolic concretisation)
+            CONCRETIZED.append(('predicate', name))
+            return out
         h = HANDLERS.get(name)
         if h is None:
             raise Unsupported(f"no symbolic handler for {name}")
